@@ -126,14 +126,44 @@ def r3_keying(ctx, prog):
                     r.violation(g['qname'], site, 'the per-token SecureDataManager is replaced outside construction / (re-)initialisation / PIN change', file=g['file'], line=n['l'])
 
 
+def r4_free_slot(ctx, prog):
+    """The free slot: SlotManager keeps exactly one slot whose token is not initialised and adds one when none is left.  "Initialised" must mean "has a token in the object store" and nothing else."""
+    r = ctx.rule('C14.R4', 'a token counts as initialised exactly when it has an object-store token; the slot list adds a free slot when none is uninitialised', floor=5, engine='E1 finite-domain')
+    f = prog.fn('Token::isInitialized')
+    ctx.analysed(f)
+    for tok in (0, 1):
+        for val in (0, 1):
+            o = Outcomes(f, prog, cenv={'token': tok, 'valid': val, re.compile(r'isValid(@\d+)?\(token\)'): val, re.compile(r'token(->|\.)valid'): val}).go()
+            r.paths += len(o.outcomes)
+            got = {oc['retv'] for oc in o.outcomes}
+            site = 'isInitialized token=%s valid=%d' % ('set' if tok else 'NULL', val)
+            if got != {tok}:
+                r.violation(f['qname'], site, 'answers %s, expected %s: an existing token that is momentarily invalid (deleted from outside) is taken for the free slot, so C_GetSlotList stops adding a new free slot after C_InitToken used the last one up' % (sorted(map(str, got)), bool(tok)),
+                            file=f['file'], line=f['line'])
+            else:
+                r.ok(f['qname'], site, str(bool(tok)), file=f['file'], line=f['line'])
+    g = prog.fn('SlotManager::getSlotList')
+    ctx.analysed(g)
+    ins = [c for c in calls(g['body'], short='insertToken')]
+    guarded = [n for n in walk(g['body']) if n.get('k') == 'If' and 'uninitialized' in canon(n['c']) and any(short(c.get('callee')) == 'insertToken' for c in calls(n['t']))]
+    setter = [n for n in walk(g['body']) if n.get('k') == 'If' and 'isInitialized' in canon(n['c']) and any(x.get('k') == 'Assign' and canon(x['a']) == 'uninitialized' for x in walk(n['t']))]
+    if ins and guarded and setter:
+        r.ok(g['qname'], 'free slot is added', 'insertToken under `uninitialized == false`, which is set from Token::isInitialized()', file=g['file'], line=ins[0]['l'])
+    else:
+        r.violation(g['qname'], 'free slot is added', 'the slot list no longer adds a free slot when every token is initialised (insertToken=%d guard=%d setter=%d)' % (len(ins), len(guarded), len(setter)), file=g['file'], line=g['line'])
+
+
 def run(ctx):
     prog = ctx.prog('ossl-file')
     r1_inittoken(ctx, prog)
     r2_createtoken(ctx, prog)
     r3_keying(ctx, prog)
+    r4_free_slot(ctx, prog)
 
 
 MUTANTS = [
+    dict(name='isinitialized-follows-validity', rule='C14.R4', file='src/lib/slot_mgr/Token.cpp', after='bool Token::isInitialized()',
+         old='\tif (token == NULL) return false;\n\n\treturn true;', new='\tif (token == NULL) return false;\n\n\treturn token->isValid();'),
     dict(name='inittoken-no-session-test', rule='C14.R1', file='src/lib/SoftHSM.cpp', after='CK_RV SoftHSM::C_InitToken(',
          old='\tif (sessionManager->haveSession(slotID))\n\t{\n\t\treturn CKR_SESSION_EXISTS;\n\t}\n', new=''),
     dict(name='createtoken-reset-before-pin-check', rule='C14.R2', file='src/lib/slot_mgr/Token.cpp', after='CK_RV Token::createToken(',
